@@ -55,7 +55,8 @@ func concrete(v AVal, unit int64, wrapBase *big.Int) (*big.Int, error) {
 }
 
 // abstract is the inverse of concrete and total: every number has an abstract value ("big" when it is none of
-// the named ones and above 2e9 units, "other" when below -1; the spec treats both as outside every bound).
+// the named ones and above 2e9 units, "vast" when moreover above 2^64, "other" when below -1; the spec treats
+// all three as outside every bound).
 func abstract(x *big.Int, unit int64, wrapBase *big.Int) AVal {
 	if x == nil {
 		return AVal{K: "nil"}
@@ -80,6 +81,9 @@ func abstract(x *big.Int, unit int64, wrapBase *big.Int) AVal {
 	a.Div(a, u) // floor, x >= 0
 	b := new(big.Int).Sub(x, new(big.Int).Mul(a, u))
 	if !a.IsInt64() || a.Int64() > linMax {
+		if x.Cmp(two64) > 0 {
+			return AVal{K: "vast"} // does not fit 64 bits
+		}
 		return AVal{K: "big"}
 	}
 	return AVal{K: "lin", A: a.Int64(), B: b.Int64()}
